@@ -89,6 +89,7 @@ type queue struct {
 	metaPageFct     page.Factory    // meta page factory
 	notEmpty        *sync.Cond      // not empty condition
 	rwMutex         *sync.RWMutex
+	putMutex        sync.Mutex   // serializes appends(alloc space/write data/publish sequence)
 	dirPath         string       // path for queue file
 	appendedSeq     atomic.Int64 // current written sequence
 	dataPageIndex   int64
@@ -192,6 +193,12 @@ func (q *queue) Put(data []byte) error {
 		// if message size > data page size, return err
 		return ErrExceedingMessageSizeLimit
 	}
+
+	// NOTE: alloc/write/publish must be done as one step for each message, if not concurrent appends
+	// publish sequences in a different order than allocated offsets, then write cursor recovered from
+	// last sequence(initDataPageIndex) points into a live message after reopen.
+	q.putMutex.Lock()
+	defer q.putMutex.Unlock()
 
 	dataPageIndex, dataPage, offset, err := q.alloc(dataLength)
 	if err != nil {
